@@ -498,6 +498,11 @@ def parse_class(header_clean, cls, real='double'):
                 break
             if c in '={':
                 break
+        if par is None:
+            # an assignment-like operator (`operator*=`, `operator==`, ...): the '=' belongs to the name, not to an initialiser
+            mo = re.match(r'^[^={(]*\boperator\s*(?:[-+*/%^&|<>!=]?=)\s*\(', t)
+            if mo:
+                par = mo.end() - 1
         if par is not None:
             pre = t[:par].rstrip()
             m = re.search(r'(operator\s*\S+|~?\w+)\s*$', pre)
